@@ -408,6 +408,10 @@ C11_noEarlyAdvance(t, gg) ==
     HasHand(t.st) /\ H(t.st).upd = H(gg.withholdSt[1]).upd /\ H(t.st).ev = H(gg.withholdSt[1]).ev
 \* the driver gave up waiting although every asked player had answered / a produced hand state was never handled
 HandStall(t) == t.ev = "idle" \/ (t.ev = "stuck" /\ t.a.kind = "hand")
+\* ... and once the response time-out (17 s) has passed the hand has moved on by itself
+C11_timeoutAdvances(t, gg) ==
+  (t.ev = "withheld" /\ Len(gg.withholdSt) = 1 /\ t.a.amt >= 17500 /\ HasHand(gg.withholdSt[1]) /\ ~gg.ext /\ gg.faults = 0) =>
+    (~HasHand(t.st) \/ H(t.st).upd # H(gg.withholdSt[1]).upd)
 C11_progress(t, gg) == (HandStall(t) /\ gg.faults = 0 /\ ~gg.ext) => FALSE
 C11_resultComplete(t, gg) == IsSettledSnap(t) => Len(ResultOf(t.st)) = Len(gg.handIds) /\ Len(H(t.st).p) = Len(gg.handIds)
 
@@ -546,6 +550,7 @@ CheckLine(k, gg) ==
      /\ Clause("C11_publishedInOrder", C11_publishedInOrder(t, gg), "", k)
      /\ Clause("C11_askedSets", C11_askedSets(t, gg), "", k)
      /\ Clause("C11_noEarlyAdvance", C11_noEarlyAdvance(t, gg), "", k)
+     /\ Clause("C11_timeoutAdvances", C11_timeoutAdvances(t, gg), "", k)
      /\ Clause("C11_progress", C11_progress(t, gg), kfmid, k)
      /\ Clause("C11_resultComplete", C11_resultComplete(t, gg), kfmid, k)
      /\ Clause("C13_errorReturned", C13_errorReturned(t, gg), "", k)
